@@ -576,7 +576,29 @@ func main() {
 					return true
 				})
 				sort.Strings(lits)
-				rows = append(rows, fl{funcKey("", fd), strings.Join(lits, " ")})
+				// operators and jump statements (sorted as well): a changed comparison or a dropped `break` is a changed fact
+				var ops []string
+				ast.Inspect(fd.Body, func(n ast.Node) bool {
+					switch e := n.(type) {
+					case *ast.BinaryExpr:
+						ops = append(ops, e.Op.String())
+					case *ast.UnaryExpr:
+						ops = append(ops, "u"+e.Op.String())
+					case *ast.IncDecStmt:
+						ops = append(ops, e.Tok.String())
+					case *ast.AssignStmt:
+						if e.Tok != token.ASSIGN && e.Tok != token.DEFINE {
+							ops = append(ops, e.Tok.String())
+						}
+					case *ast.BranchStmt:
+						ops = append(ops, e.Tok.String())
+					case *ast.ReturnStmt:
+						ops = append(ops, "return")
+					}
+					return true
+				})
+				sort.Strings(ops)
+				rows = append(rows, fl{funcKey("", fd), strings.Join(lits, " ") + " ;; " + strings.Join(ops, " ")})
 			}
 		}
 		sort.Slice(rows, func(i, j int) bool { return rows[i].name < rows[j].name })
@@ -589,11 +611,11 @@ func main() {
 		}
 		b.WriteString("]\n")
 	}
-	emitLits("literalsFp", "internal/fp (fp.go, decimal.go, eisel_lemire.go): integer / float / character literals per function, sorted", fpFiles, func(string) bool { return true })
+	emitLits("literalsFp", "internal/fp (fp.go, decimal.go, eisel_lemire.go): integer / float / character literals per function, then its operators and jump statements, each sorted", fpFiles, func(string) bool { return true })
 	for _, g := range []struct{ def, file string }{{"literalsSimpleReaders", "simple_readers.go"}, {"literalsToken", "token.go"}, {"literalsHelpers", "machine_helpers.go"},
 		{"literalsComplexReaders", "complex_readers.go"}, {"literalsDecode", "decode.go"}, {"literalsRjson", "rjson.go"}} {
 		file := g.file
-		emitLits(g.def, file+": integer / float / character literals per function, sorted", files, func(base string) bool { return base == file })
+		emitLits(g.def, file+": integer / float / character literals per function, then its operators and jump statements, each sorted", files, func(base string) bool { return base == file })
 	}
 	// every index and slice expression of the hand-written token and integer readers, in source order: the places where the
 	// checked model (Model/ApiChecked.lean) has an explicit bounds test or, for a 256-entry table indexed by a byte, none
